@@ -541,6 +541,24 @@ def _arg_at(call, fnode, i):
     return None
 
 
+def _local_display(owner, name):
+    """the tuple display that the local `name` of `owner` holds: assigned exactly once, from a display, not a
+    parameter, not captured by a nested function"""
+    if owner is None or name in _pos_params(owner) or name in [a.arg for a in owner.args.kwonlyargs]:
+        return None
+    stores = [n for n in ast.walk(owner) if isinstance(n, ast.Name) and n.id == name and isinstance(n.ctx, (ast.Store, ast.Del))]
+    if len(stores) != 1:
+        return None
+    for n in _walk_own(owner):
+        if isinstance(n, ast.Assign) and len(n.targets) == 1 and n.targets[0] is stores[0]:
+            if isinstance(n.value, ast.Tuple) and not any(isinstance(e, ast.Starred) for e in n.value.elts):
+                for f in ast.walk(owner):
+                    if isinstance(f, (ast.FunctionDef, ast.Lambda)) and f is not owner and any(isinstance(x, ast.Name) and x.id == name for x in ast.walk(f)):
+                        return None
+                return n.value
+    return None
+
+
 def flatten_tuple_params(trees, unknown, report):
     inv = load_inventory()
     funcs = _module_functions(trees)
@@ -643,6 +661,8 @@ def flatten_tuple_params(trees, unknown, report):
                     owner = _enclosing_function(trees[crel], call)
                     if owner is not None and owner.name in funcs and funcs[owner.name][0][1] is owner and a.id in _pos_params(owner) and (owner.name, _pos_params(owner).index(a.id)) in cands:
                         continue
+                    if _local_display(owner, a.id) is not None:
+                        continue
                 drop.append((name, i))
                 break
         if not drop:
@@ -658,6 +678,10 @@ def flatten_tuple_params(trees, unknown, report):
         rel, fnode = funcs[name][0]
         for crel, call in _calls_of(trees, name):
             a = _arg_at(call, fnode, i)
+            if isinstance(a, ast.Name):
+                d = _local_display(_enclosing_function(trees[crel], call), a.id)
+                if d is not None:
+                    a = d
             if isinstance(a, ast.Tuple):
                 if arity.get((name, i)) not in (0, None, len(a.elts)):
                     return set()
@@ -669,6 +693,8 @@ def flatten_tuple_params(trees, unknown, report):
                 a = _arg_at(call, fnode, i)
                 if isinstance(a, ast.Name):
                     owner = _enclosing_function(trees[crel], call)
+                    if _local_display(owner, a.id) is not None:
+                        continue
                     k2 = (owner.name, _pos_params(owner).index(a.id))
                     x, y = arity.get((name, i), 0), arity.get(k2, 0)
                     if x and y and x != y:
@@ -707,6 +733,9 @@ def flatten_tuple_params(trees, unknown, report):
             a = _arg_at(call, fnode, i)
             if isinstance(a, ast.Tuple):
                 new = list(a.elts)
+            elif isinstance(a, ast.Name) and _local_display(_enclosing_function(trees[crel], call), a.id) is not None:
+                # the components of the display the local holds (the local itself is scalarised by the canonical form)
+                new = [ast.copy_location(ast.Subscript(value=ast.Name(id=a.id, ctx=ast.Load()), slice=ast.Constant(value=k), ctx=ast.Load()), a) for k in range(arity[(name, i)])]
             else:
                 owner = _enclosing_function(trees[crel], call)
                 k2 = (owner.name, _pos_params(owner).index(a.id))
